@@ -69,6 +69,8 @@ func RenderSlot(s ResSlot, partials bool) string {
 	}
 	if s.Group != "" {
 		w("apiVersion: %s/v1", s.Group)
+	} else if r, ok := resByKind(s.Kind); ok && s.APIVer != "" && r.Group != "" {
+		w("apiVersion: %s/%s", r.Group, s.APIVer)
 	} else {
 		w("apiVersion: %s", apiVersionOf(s.Kind))
 	}
